@@ -152,6 +152,11 @@ type Interp struct {
 	gwaits     map[*Goroutine]*gwait
 	lastClock  *Term
 	rtypeObjs  map[string]*Object
+	concrete   []Input
+	concreteMode bool
+	concPos    int
+	concChoice int
+	usedStubs  bool
 	pathNotes  []string
 }
 
@@ -181,7 +186,7 @@ func NewInterp(prog *ssa.Program, tt *TermTable, sol *Solver) *Interp {
 	return &Interp{prog: prog, tt: tt, sol: sol,
 		sizeCache: map[types.Type]int{}, infos: map[*ssa.Function]*fnInfo{},
 		globals: map[*ssa.Global]*Object{}, pkgInit: map[*ssa.Package]bool{},
-		unwind: 16, maxLen: 64, stepBudget: 20_000_000, mergeBudget: 4000, schedules: 1,
+		unwind: 64, maxLen: 64, stepBudget: 20_000_000, mergeBudget: 4000, schedules: 1,
 		stats: &Stats{Unsupported: map[string]int{}, Cover: map[string]int{}, Functions: map[string]int{}},
 		stubs: map[string]*FuncV{}, rangeHints: map[*Term][2]int64{}, rtypeObjs: map[string]*Object{},
 	}
@@ -587,6 +592,10 @@ func (in *Interp) invoke(g *Goroutine, fv *FuncV, args []Value, retReg int, onRe
 	// stubs and intrinsics
 	name := fn.String()
 	if st, ok := in.stubs[name]; ok && st.fn != fn {
+		in.usedStubs = true
+		if st.fn != nil && len(st.fn.Params) == len(args)-1 {
+			args = args[1:] // stub of a method written without the receiver
+		}
 		in.invoke(g, st, args, retReg, onRet, isDefer)
 		return
 	}
@@ -1049,6 +1058,18 @@ func (in *Interp) decide(n int, feas func(i int) bool) int {
 	if in.specDepth > 0 {
 		panic(mergeAbort{"decision in arm"})
 	}
+	if in.concreteMode {
+		for in.concChoice < len(in.concrete) && in.concrete[in.concChoice].Kind != "choice" {
+			in.concChoice++
+		}
+		if in.concChoice >= len(in.concrete) {
+			panic(pathEnd{kind: "unsupported", msg: "concrete trace exhausted (choice)"})
+		}
+		v := int(in.concrete[in.concChoice].Val)
+		in.concChoice++
+		in.taken = append(in.taken, v)
+		return v
+	}
 	if in.pos < len(in.prefix) {
 		c := in.prefix[in.pos]
 		in.pos++
@@ -1269,29 +1290,23 @@ func (in *Interp) tryMerge(g *Goroutine, fr *Frame, x *ssa.If, c *Term) (ok bool
 	if len(a.maps) > 0 || len(b.maps) > 0 {
 		panic(mergeAbort{"map mutation in arm"})
 	}
+	// Only the phi registers of J can be live after the join (SSA dominance):
+	// everything else defined inside an arm is dead there.
 	regWrites := map[int]Value{}
-	for i, va := range a.regs {
-		vb, ok := b.regs[i]
-		if !ok {
-			vb = fr.regs[i]
+	if J != nil {
+		for _, ins := range J.Instrs {
+			phi, ok := ins.(*ssa.Phi)
+			if !ok {
+				break
+			}
+			i := fr.info.idx[phi]
+			va, oka := a.regs[i]
+			vb, okb := b.regs[i]
+			if !oka || !okb {
+				panic(mergeAbort{"phi not written in both arms"})
+			}
+			regWrites[i] = merged(va, vb)
 		}
-		if vb == nil && va != nil {
-			// register not yet defined on the other arm: only live on arm a; keep a's value
-			regWrites[i] = va
-			continue
-		}
-		regWrites[i] = merged(va, vb)
-	}
-	for i, vb := range b.regs {
-		if _, ok := a.regs[i]; ok {
-			continue
-		}
-		va := fr.regs[i]
-		if va == nil {
-			regWrites[i] = vb
-			continue
-		}
-		regWrites[i] = merged(va, vb)
 	}
 	var ret Value
 	if J == nil {
@@ -1375,6 +1390,14 @@ func (in *Interp) reportViolation(kind, msg string, mech bool) {
 			v.Stack = append(v.Stack, f.fn.String()+" "+pos)
 		}
 	}
+	if kind != "assert" {
+		// concrete witness: any model of the path condition
+		if res, model := in.sol.CheckModel(in.pc, in.allSyms()); res == Sat {
+			v.Inputs = in.modelInputs(model)
+		} else if len(in.pc) == 0 {
+			v.Inputs = in.modelInputs(map[string]uint64{})
+		}
+	}
 	in.stats.Violations = append(in.stats.Violations, v)
 }
 
@@ -1392,6 +1415,20 @@ func (in *Interp) modelInputs(model map[string]uint64) []Input {
 }
 
 func (in *Interp) freshSym(w uint8, src, label string) *Term {
+	if in.concreteMode {
+		for in.concPos < len(in.concrete) && in.concrete[in.concPos].Kind != "sym" {
+			in.concPos++
+		}
+		if in.concPos >= len(in.concrete) {
+			panic(pathEnd{kind: "unsupported", msg: "concrete trace exhausted"})
+		}
+		v := in.concrete[in.concPos].Val
+		in.concPos++
+		if w == 0 {
+			return in.tt.Bool(v != 0)
+		}
+		return in.tt.Const(w, v)
+	}
 	in.symSeq++
 	name := fmt.Sprintf("s%d_w%d", in.symSeq, w)
 	t := in.tt.Sym(name, w)
